@@ -10,6 +10,7 @@ From Coq Require Import String.
 From PB Require Export Model.Satisfaction.
 From PB Require Model.Phragmen.
 From PB Require Model.Analysis.
+From PB Require Spec.PriceSystem Model.Priceability.
 From Coq Require Import Qround.
 Open Scope Q_scope.
 
@@ -31,6 +32,16 @@ Definition py_satobj := list py_proj -> Q.
 Definition py_satclass := py_inst -> py_profile -> py_pballot -> py_satobj.
 Definition py_satentry := (py_satobj * nat)%type.
 Definition py_satprofile := list py_satentry.
+
+(* validate_price_system: payment_functions is a list (one entry per voter, in profile order) of dictionaries
+   project -> amount: a table indexed by voter position and project rank (missing entries = 0, as Model/Priceability.v
+   [pay_of]); a relaxation object is the model's [relax] (class together with its beta values) *)
+Definition py_payments := list (list Q).
+Definition py_relax := PriceSystem.relax.
+
+(* the proportionality checkers work on LIST profiles (every ballot once; the source says that multiprofiles are
+   not handled there): the profile is the list of its ballots, a satisfaction class takes (instance, profile, ballot) *)
+Definition py_satclass_l := py_inst -> list py_ballot -> py_ballot -> py_satobj.
 
 (* a function the translator could not translate: its generated definition has this type, so that exactly
    the theorems that mention it stop type-checking *)
@@ -85,6 +96,17 @@ Definition py_chain {A} (l : list (list A)) : list A := concat l.
 Definition py_np_median (l : list Q) : Q := Analysis.median l.
 Definition py_float (x : Q) : Q := x.
 
+(* xs[i] for a computed position i (a Python int): IndexError is not tracked, a missing entry is 0 *)
+Definition py_list_get (l : list Q) (i : Q) : Q := nth (py_nat i) l 0.
+Definition py_pay_row (P : py_payments) (i : Q) : list Q := nth (py_nat i) P [].       (* payment_functions[idx] *)
+Definition py_row_get (row : list Q) (c : py_proj) : Q := nth c row 0.                 (* payment_functions[idx][c] *)
+(* round(x, ndigits) on exact rationals: round half to even (Model/Priceability.v [round_half_even]) *)
+Definition py_round (x p : Q) : Q :=
+  let sc := (10 ^ Qfloor p)%Z in
+  Qred (inject_Z (Priceability.round_half_even (x * inject_Z sc)) / inject_Z sc).
+(* relaxation.get_relaxed_cost(c) *)
+Definition py_relaxed_cost (I : py_inst) (R : py_relax) (c : py_proj) : Q := PriceSystem.relaxed_cost I R c.
+
 (* ---------- projects and instances ---------- *)
 (* project.cost: the projects handed to the functions are the instance's own objects *)
 Definition py_cost (I : py_inst) (p : py_proj) : Q := cost I p.
@@ -112,6 +134,9 @@ Definition py_ballot_get (b : py_ballot) (p : py_proj) (d : Q) : Q :=     (* bal
   if inb b p then bget b p else d.
 Definition py_ballot_getitem (b : py_ballot) (p : py_proj) : Q := bget b p.   (* ballot[p], p in ballot *)
 Definition py_ballot_position (b : py_ballot) (p : py_proj) : Q := Qnat (bpos b p).   (* ballot.position(p), p in ballot *)
+
+(* ApprovalBallot(instance): the ballot approving every project *)
+Definition py_full_ballot (I : py_inst) : py_ballot := map (fun p => (p, 1)) (all_projects I).
 
 (* ---------- profiles ---------- *)
 Definition py_profile_iter (P : py_profile) : list py_pballot := P.       (* for b in profile *)
